@@ -193,14 +193,16 @@ def run(ctx):
 
 
 LATEX_ATOMS = ['$', '#', '{', '}', '&', '_', '%', '^', '\\', '~', '\\\\', '\\{', '\\}', '\\$', '$$', '{}', '}{', '%\n', ' ', 'a', 'x_1', 'e^x', '50%', '#1', 'A&B',
-               '\\end{document}', '\\end{lstlisting}', '\\begin{x}', '\\input{f}', '\\verb|x|', '|', '!', '"', "'", '=', '+', ']', '[', '`', '\n']
+               '\\end{document}', '\\end{lstlisting}', '\\begin{x}', '\\input{f}', '\\verb|x|', '|', '!', '"', "'", '=', '+', ']', '[', '`', '\n',
+               # URL-ish pieces: text that is already percent-encoded, query strings, fragments
+               '%20', '%7B', '%5C', 'a%20b', '?q=1&r=2', '#frag', '/p/', 'http://h/']
 
 
 def latex_payload_doc(rng):
     def p():
         return ''.join(rng.choice(LATEX_ATOMS) for _ in range(rng.randint(1, 6)))
     t = rng.choice(workloads.TEMPLATES + ['{p}', '{p} {q}', '# {p}', '| {p} | {q} |\n|---|---|\n| {q} | {p} |', '```{p}\n{q}\n```', '`{p}`', '    {p}\n    {q}',
-                                          '![a]({p})', '[a]({p})', '<http://x/{p}>', '$ {p} $', '- {p}\n  - {q}', '> {p}\n> {q}',
+                                          '![a]({p})', '[a]({p})', '<http://x/{p}>', '[a](<{p}>)', '[a](/my%20docs/{p})', '[r]: /x%20y{p}\n\n[r] ![r]', '<http://h/a%20b{p}>', '[]({p})', '[][r]\n\n[r]: {p}', '$ {p} $', '- {p}\n  - {q}', '> {p}\n> {q}',
                                           # the same string verbatim and as text (context-dependent escaping)
                                           '`{p}` and {p}', '{p} then `{p}` then **{p}**', '    {p}\n\n{p}', '```\n{p}\n```\n\n*{p}* [{p}](/u)', '| `{p}` | {p} |\n|---|---|'])
     return t.replace('{p}', p()).replace('{q}', p()) + '\n'
